@@ -461,7 +461,7 @@ def run(tier):
         k2, k2len, walks1, walks2, mode1 = 12, 3, 2000, 1000, "edges"
         periodic = ("periodic-q", (0, 1, 2), (1, 3))
     else:
-        k2, k2len, walks1, walks2, mode1 = 120, 40, 20000, 5000, "pairs"
+        k2, k2len, walks1, walks2, mode1 = 90, 40, 20000, 5000, "pairs"
         periodic = ("periodic-t", (0, 1, 2, 3, 5), (1, 2, 4))
     ids2 = sorted(rnd.sample(uni2, k2))
     ck.set("depth2_terms_sampled", ids2[:40])
@@ -476,7 +476,7 @@ def run(tier):
     if tier == "thorough":
         # every term of depth 2 without terminate(), a large sample with one terminate() per behaviour
         runs.append(("mc-all-d2", "ALL-D2", 0, 3, 0))
-        runs.append(("mc-d2-term1", sorted(rnd.sample(uni2, 2500)), 1, 3, 0))
+        runs.append(("mc-d2-term1", sorted(rnd.sample(uni2, 1500)), 1, 3, 0))
     for name, ids, maxterm, cap, maxlen in runs:
         res = run_tlc("base/PTC", cfg=_ptc_cfg(name, ids, maxterm, cap, maxlen, False), workers=vlib.NCPU,
                       timeout=3000, heap="6g")
